@@ -67,6 +67,8 @@ func main() {
 		}
 		sort.Strings(ids)
 		fmt.Println(strings.Join(ids, " "))
+	case "explore-bounds":
+		exploreBounds(repo)
 	case "check":
 		if len(pos) != 1 {
 			usage()
